@@ -139,6 +139,11 @@ def droppedAt (s : Sys) (old : Nat) : List Nat :=
   let mine := ((lookupN old s.cd).map tagsOfData).getD []
   (mine.filter (fun t => !others.contains t)).mergeSort (· ≤ ·)
 
+/-- what a step of a `data` store releases -/
+def dropsOf (s : Sys) : HalfLock.Obs → List Nat
+  | .free old => droppedAt s old
+  | _ => []
+
 def insertSorted (tag : Nat) : List Nat → List Nat
   | [] => [tag]
   | x :: xs => if tag ≤ x then tag :: x :: xs else x :: insertSorted tag xs
@@ -174,6 +179,33 @@ def plan (env : Env) (cur : SigData) : Op → (Option SigData × Ret × Bool)
   | .deliver _ => (none, .delivered, false)
 
 def dispOf (s : Sys) (sig : Int) : Disp := (lookup sig s.disp).getD .dfl
+
+/-- whether a mutator will call `data.store` (decided from what is current when it takes the
+writer mutex: nobody else can publish while it holds it) -/
+def willStore (env : Env) (c : SigData) (op : Op) : Bool :=
+  match plan env c op with
+  | (none, _, _) => false
+  | (some _, _, false) => true
+  | (some _, _, true) =>
+    match op with
+    | .register _ sig _ => !(env.rejectsQuery sig) && !(env.rejectsSet sig)
+    | _ => true
+
+/-- the thread has a snapshot pinned -/
+def isHold : HalfLock.Pc → Bool
+  | .rUse .. => true
+  | _ => false
+
+def Ret.idOr0 : Ret → Nat
+  | .id _ i => i
+  | _ => 0
+
+/-- bookkeeping of a `store`: the allocation step records the contents of the new snapshot -/
+def recordAlloc {β} (o : HalfLock.Obs) (pending : Option β) (c : List (Nat × β)) (na : Nat) :
+    List (Nat × β) × Nat × Option β :=
+  match o, pending with
+  | .alloc n, some v => ((n, v) :: c, na + 1, none)
+  | _, _ => (c, na, pending)
 
 def setT (s : Sys) (t : Nat) (th : Thread) : Sys := { s with threads := s.threads.set t th }
 
@@ -219,19 +251,17 @@ def step (env : Env) (ye : Nat) (s : Sys) (t : Nat) : Option (Sys × StepOut) :=
       | none => none
       | some (hf', o) =>
         let s' := { s with hf := hf' }
-        let done := match hlPc hf' t with | .rUse .. => true | _ => false
-        some (setT s' t { th with pc := if done then .dData sig else .dFb sig }, { ev := .hf o })
+        some (setT s' t { th with pc := if isHold (hlPc hf' t) then .dData sig else .dFb sig }, { ev := .hf o })
     | .dData sig =>
       let r := if hlPc s.hd t == .idle then hlBegin ye s.hd t (.read 0) else HalfLock.step ye s.hd t
       match r with
       | none => none
       | some (hd', o) =>
         let s' := { s with hd := hd' }
-        match hlPc hd' t with
-        | .rUse .. =>
+        if isHold (hlPc hd' t) then
           let p := dispatchPlan s' t sig
           some (setT s' t { th with pc := .dPlan sig p.1 p.2 }, { ev := .hd o })
-        | _ => some (setT s' t { th with pc := .dData sig }, { ev := .hd o })
+        else some (setT s' t { th with pc := .dData sig }, { ev := .hd o })
     | .dPlan sig (some d) tags =>
       some (setT s t { th with pc := .dPlan sig none tags }, { ev := .prev d })
     | .dPlan sig none (tag :: rest) =>
@@ -251,15 +281,7 @@ def step (env : Env) (ye : Nat) (s : Sys) (t : Nat) : Option (Sys × StepOut) :=
       -- whether `store` will be called is decided by what is current now: nobody else can publish
       -- while this thread holds the writer mutex
       let cur := (lookupN s.hd.data s.cd).getD SigData.empty
-      let p := plan env cur op
-      let willStore : Bool := match p with
-        | (none, _, _) => false
-        | (some _, _, false) => true
-        | (some _, _, true) =>
-          match op with
-          | .register _ sig _ => !(env.rejectsQuery sig) && !(env.rejectsSet sig)
-          | _ => true
-      match hlBegin ye s.hd t (.write willStore false) with
+      match hlBegin ye s.hd t (.write (willStore env cur op) false) with
       | none => none
       | some (hd', o) => some (setT { s with hd := hd' } t { th with pc := .mLoadD op }, { ev := .hd o })
     | .mLoadD op =>
@@ -296,13 +318,11 @@ def step (env : Env) (ye : Nat) (s : Sys) (t : Nat) : Option (Sys × StepOut) :=
       match HalfLock.step ye hf0 t with
       | none => none
       | some (hf', o) =>
-        let (cf', na, fb') := match o, fb with
-          | .alloc n, some v => ((n, v) :: s.cf, s.nextAlloc + 1, none)
-          | _, _ => (s.cf, s.nextAlloc, fb)
-        let s' := { s with hf := hf', cf := cf', nextAlloc := na }
+        let r := recordAlloc o fb s.cf s.nextAlloc
+        let s' := { s with hf := hf', cf := r.1, nextAlloc := r.2.1 }
         if hlPc hf' t == .idle then
           some (setT s' t { th with pc := .mSet sig tag new res }, { ev := .hf o })
-        else some (setT s' t { th with pc := .mRunF sig tag fb' new res }, { ev := .hf o })
+        else some (setT s' t { th with pc := .mRunF sig tag r.2.2 new res }, { ev := .hf o })
     | .mUnlockF res drops =>
       match HalfLock.step ye s.hf t with
       | none => none
@@ -313,11 +333,8 @@ def step (env : Env) (ye : Nat) (s : Sys) (t : Nat) : Option (Sys × StepOut) :=
         some (setT s t { th with pc := .mUnlockD .err [tag] }, { ev := .sigaction sig true false })
       else
         let prev := dispOf s sig
-        let id := match res with
-          | .id _ i => i
-          | _ => 0
         let new' : SigData :=
-          { new with signals := update sig { prev := prev, actions := [(id, tag)] } new.signals }
+          { new with signals := update sig { prev := prev, actions := [(res.idOr0, tag)] } new.signals }
         some (setT { s with disp := update sig (.lib env.libFlags) s.disp } t
                 { th with pc := .mRunD (some new') res }, { ev := .sigaction sig true true })
     | .mRunD new res =>
@@ -325,16 +342,12 @@ def step (env : Env) (ye : Nat) (s : Sys) (t : Nat) : Option (Sys × StepOut) :=
       match HalfLock.step ye hd0 t with
       | none => none
       | some (hd', o) =>
-        let (cd', na, new') := match o, new with
-          | .alloc n, some v => ((n, v) :: s.cd, s.nextAlloc + 1, none)
-          | _, _ => (s.cd, s.nextAlloc, new)
-        let dropped := match o with
-          | .free old => droppedAt s old
-          | _ => []
-        let s' := { s with hd := hd', cd := cd', nextAlloc := na }
+        let r := recordAlloc o new s.cd s.nextAlloc
+        let dropped := dropsOf s o
+        let s' := { s with hd := hd', cd := r.1, nextAlloc := r.2.1 }
         if hlPc hd' t == .idle then
           some (setT s' t { th with pc := .idle }, { ev := .hd o, dropped := dropped, ret := some res })
-        else some (setT s' t { th with pc := .mRunD new' res }, { ev := .hd o, dropped := dropped })
+        else some (setT s' t { th with pc := .mRunD r.2.2 res }, { ev := .hd o, dropped := dropped })
     | .mUnlockD res drops =>
       match HalfLock.step ye s.hd t with
       | none => none
